@@ -88,13 +88,6 @@ BUILTINS_RELIED_ON = ("slice", "BaseException", "NameError")
 
 def cert_signature(c):
     """known-finding region a case falls in, judged from the case alone (used when a certificate is not obtained)"""
-    import ast as _ast
-    try:
-        tree = _ast.parse(c["src"])
-    except SyntaxError:
-        return None
-    if "before_compare" in c["events"] and any(isinstance(n, _ast.Compare) and len(n.ops) > 1 for n in _ast.walk(tree)):
-        return "before_compare on a comparison chain: all comparators are evaluated eagerly (short-circuit lost)"
     return None
 
 
